@@ -40,7 +40,8 @@ pub struct Rt {
     pub progress: u64,
     pub log: Option<std::fs::File>,
     pub cap_override: usize,
-    pub fail_spawn: Vec<String>,
+    pub fail_spawn: Vec<(usize, String)>,
+    pub spawn_attempts: Vec<(String, usize)>,
     pub short_read: usize,
     pub controlled: bool,
 }
@@ -65,6 +66,7 @@ pub fn rt() -> &'static mut Rt {
                 log,
                 cap_override: 0,
                 fail_spawn: Vec::new(),
+                spawn_attempts: Vec::new(),
                 short_read: 0,
                 controlled: std::env::var_os("ZX_SCHEDULE").is_some(),
             });
@@ -82,6 +84,24 @@ pub fn log(line: &str) {
 
 pub fn bump() {
     rt().progress += 1;
+}
+
+/// Should this spawn attempt of `script` fail (schedule directive `failspawn <k> <script>`)?
+pub fn spawn_should_fail(script: &str) -> bool {
+    let r = rt();
+    let mut k = 0;
+    let mut found = false;
+    for (s, n) in r.spawn_attempts.iter_mut() {
+        if s == script {
+            k = *n;
+            *n += 1;
+            found = true;
+        }
+    }
+    if !found {
+        r.spawn_attempts.push((script.to_string(), 1));
+    }
+    r.fail_spawn.iter().any(|(i, s)| *i == k && s == script)
 }
 
 /// May a receive on channel `id` complete during the current poll?
@@ -239,7 +259,7 @@ fn parse_schedule() -> Vec<Step> {
             "write" => out.push(Step::Write(PathBuf::from(w[1]), w[2..].join(" "))),
             "remove" => out.push(Step::Remove(PathBuf::from(w[1]))),
             "cap" => rt().cap_override = w[1].parse().unwrap(),
-            "failspawn" => rt().fail_spawn.push(w[1..].join(" ")),
+            "failspawn" => rt().fail_spawn.push((w[1].parse().unwrap(), w[2..].join(" "))),
             "shortread" => rt().short_read = w[1].parse().unwrap(),
             other => panic!("bad schedule line: {}", other),
         }
